@@ -142,7 +142,7 @@ func (h *DNSHandler) sendNBNS(srcAddr packet.Addr, dstAddr packet.Addr, p packet
 	b := packet.EtherBufferPool.Get().(*[packet.EthMaxSize]byte)
 	defer packet.EtherBufferPool.Put(b)
 	ether := packet.Ether(b[0:])
-	ether = packet.EncodeEther(ether, syscall.ETH_P_IP, srcAddr.MAC, dstAddr.MAC)
+	ether = packet.EncodeEther(ether, syscall.ETH_P_IP, h.session.NICInfo.HostAddr4.MAC, dstAddr.MAC) // the ethernet source is always the interface mac
 	ip4 := packet.EncodeIP4(ether.Payload(), 255, srcAddr.IP, dstAddr.IP)
 	udp := packet.EncodeUDP(ip4.Payload(), 137, 137)
 	if udp, err = udp.AppendPayload(p); err != nil {
